@@ -2,6 +2,7 @@ package props
 
 import (
 	"bytes"
+	gocontext "context"
 	"fmt"
 	"strings"
 	"sync"
@@ -551,5 +552,169 @@ func TestC12FreshKeyBurst(t *testing.T) {
 			c.failf("final settle: %v", err)
 		}
 		col.Case(n >= 3, fmt.Sprint(kind, n, idseed), []string{fmt.Sprintf("racers=%d", n), "kind=" + string(kind)}, func() interface{} { return c.j.Header })
+	})
+}
+
+// TestC12Abandoned: a caller gives up on its request (its context is cancelled: deadline, closed
+// connection) while the request is inside the server holding the datatype's lock. The request has
+// to return, and the datatype must stay usable for everybody: nothing may keep the lock.
+func TestC12Abandoned(t *testing.T) {
+	col := stats.New("C12", t.Name(),
+		"one key (drawn kind) with 2-3 clients on a drawn deployment; the gate of the fake MongoDB holds the k-th (drawn, 1-6) database command that the next request of client 0 issues for the datatype; while it is held the caller cancels the request's context (drawn: before the command is released / the command is released first and the cancellation follows at once / no cancellation at all, as control); then every client, client 0 included, issues operations and syncs the key one after the other; "+
+			"oracle: the abandoned call returns within the deadline, every later sync is answered within the deadline and none is refused for the lock, at most one later request per client is refused at all (the roll-forward of a half-stored push refuses the request that discovers it), log invariants and convergence at the end; non-trivial = the request was cancelled while one of its commands was held; distinct = kind, k, mode, deployment, operation counts")
+	checkProp(t, "C12", col, func(c *caseCtx) {
+		rt := c.rt
+		kind := kindFromDraw(rt)
+		idseed := rapid.Uint64Range(1, 1<<40).Draw(rt, "idseed")
+		dep := "deployment=one-instance+local-lock"
+		switch rapid.IntRange(0, 5).Draw(rt, "deployment") {
+		case 1:
+			l1Deploy, dep = cluster.Options{Redis: true}, "deployment=one-instance+redis-lock"
+		case 2:
+			l1Deploy, dep = cluster.Options{Redis: true, Instances: 2}, "deployment=two-instances+redis-lock"
+		case 3:
+			l1Deploy, dep = cluster.Options{Redis: true, RemoteInstances: 1}, "deployment=two-processes+redis-lock"
+		}
+		w, err := newL1World(idseed, []sim.Kind{kind})
+		if err != nil {
+			c.failf("HARNESS-ERROR: %v", err)
+		}
+		defer w.close()
+		defer w.env.Mongo.DisableGate()
+		nc := rapid.IntRange(2, 3).Draw(rt, "clients")
+		holdAt := rapid.IntRange(1, 6).Draw(rt, "hold_command")
+		mode := rapid.SampledFrom([]string{"cancel-then-release", "cancel-then-release", "release-then-cancel", "no-cancel"}).Draw(rt, "mode")
+		nops := rapid.IntRange(0, 3).Draw(rt, "ops_in_abandoned_request")
+		c.j.Header = map[string]interface{}{"kind": kind, "id_seed": idseed, "deployment": dep, "clients": nc, "hold_command": holdAt, "mode": mode, "ops": nops}
+		k := w.keys[0]
+		var cls []*l1Client
+		for i := 0; i < nc; i++ {
+			cl, err := w.addClient()
+			if err != nil {
+				c.failf("HARNESS-ERROR: %v", err)
+			}
+			cls = append(cls, cl)
+			if i == 0 {
+				w.open(cl, k, "create")
+			} else {
+				w.open(cl, k, "subscribe")
+			}
+			sim.Exec(kind, cl.dts[k.Name].dt, c06CheapCall(kind, i))
+			if ex := w.syncClient(cl); ex == nil || exchangeProblem(cl, ex) != nil {
+				c.failf("HARNESS-ERROR: setup sync failed")
+			}
+		}
+		w.env.WaitBackground(3 * time.Second)
+		duid := []byte(k.duid)
+		seen := 0
+		w.env.Mongo.EnableGate(func(cmd *fakemongo.Cmd) bool {
+			b, _ := bson.Marshal(cmd.Body)
+			if !bytes.Contains(b, duid) {
+				return false
+			}
+			seen++
+			return seen == holdAt
+		})
+		for i := 0; i < nops; i++ {
+			sim.Exec(kind, cls[0].dts[k.Name].dt, c06CheapCall(kind, 20+i))
+		}
+		req := cls[0].pc.BuildRequest()
+		ctx, cancel := gocontext.WithCancel(gocontext.Background())
+		defer cancel()
+		exA := &exchange{req: req, errPacks: map[string]string{}}
+		done := make(chan struct{})
+		go func() {
+			defer close(done)
+			exA.resp, exA.rpcErr, exA.timedOut = w.env.ProcessPushPullCtx(ctx, req, l1Deadline)
+		}()
+		held := w.env.Mongo.WaitPending(1, 2*time.Second)
+		heldVerb := ""
+		if held {
+			if p := w.env.Mongo.Pending(); len(p) > 0 {
+				heldVerb = p[0].Verb
+			}
+			switch mode {
+			case "cancel-then-release":
+				cancel()
+				if rapid.Bool().Draw(rt, "wait_for_return_before_release") {
+					select {
+					case <-done:
+					case <-time.After(500 * time.Millisecond):
+					}
+				}
+				w.env.Mongo.DisableGate()
+			case "release-then-cancel":
+				w.env.Mongo.DisableGate()
+				cancel()
+			default:
+				w.env.Mongo.DisableGate()
+			}
+		} else {
+			w.env.Mongo.DisableGate()
+		}
+		select {
+		case <-done:
+		case <-time.After(l1Deadline + 2*time.Second):
+			c.failf("the request whose caller had given up never returned (held command: %s, mode %s)", heldVerb, mode)
+		}
+		if exA.timedOut {
+			c.failf("the request whose caller had given up was not answered within %v (held command: %s, mode %s)", l1Deadline, heldVerb, mode)
+		}
+		if mode == "no-cancel" || !held {
+			if exA.rpcErr != nil {
+				c.failf("a request that nobody cancelled failed: %v", exA.rpcErr)
+			}
+		}
+		w.record(cls[0], exA)
+		if exA.rpcErr == nil {
+			w.apply(cls[0], exA)
+		}
+		w.env.WaitBackground(5 * time.Second)
+		// everybody goes on using the datatype
+		refusals := 0
+		order := rapid.Permutation([]int{0, 1, 2}[:nc]).Draw(rt, "order")
+		for round := 0; round < 2; round++ {
+			for _, ci := range order {
+				cl := cls[ci]
+				for j := rapid.IntRange(0, 2).Draw(rt, fmt.Sprintf("later_ops_%d_%d", round, ci)); j > 0; j-- {
+					sim.Exec(kind, cl.dts[k.Name].dt, c06CheapCall(kind, 40+10*round+j))
+				}
+				refused := 0
+				for attempt := 0; ; attempt++ {
+					ex := w.syncClient(cl)
+					if ex.timedOut || ex.rpcErr != nil {
+						c.failf("after a request for the datatype was abandoned by its caller (held command: %s, mode %s), the sync of client %d was not served: timeout=%v err=%v", heldVerb, mode, ci, ex.timedOut, ex.rpcErr)
+					}
+					e := ex.errPacks[k.Name]
+					if e == "" {
+						if ex.applyErr != nil {
+							c.failf("client %d: applying the response failed: %v", ci, ex.applyErr)
+						}
+						break
+					}
+					if strings.Contains(e, "fail to lock") {
+						c.failf("after a request for the datatype was abandoned by its caller (held command: %s, mode %s) and had returned, client %d cannot get the datatype's lock: %s", heldVerb, mode, ci, e)
+					}
+					refused++
+					refusals++
+					if refused > 1 || mode == "no-cancel" || !held {
+						c.failf("client %d: sync refused (attempt %d) after the abandoned request (held command: %s, mode %s): %s", ci, attempt+1, heldVerb, mode, e)
+					}
+				}
+			}
+		}
+		w.env.WaitBackground(5 * time.Second)
+		if err := w.checkLogInvariants(); err != nil {
+			c.failf("%v", err)
+		}
+		w.noConverge = false
+		if err := w.applyL1(l1Action{K: "settle"}); err != nil {
+			c.failf("final settle: %v", err)
+		}
+		if err := w.infraProblem(); err != nil {
+			c.failf("%v", err)
+		}
+		cancelled := held && mode != "no-cancel"
+		col.Case(cancelled, fmt.Sprint(kind, holdAt, mode, dep, nops, nc, order), []string{"mode=" + mode, fmt.Sprintf("held=%v", held), "held-command=" + heldVerb, dep, fmt.Sprintf("later-refusals=%d", refusals)}, func() interface{} { return c.j.Header })
 	})
 }
